@@ -205,6 +205,47 @@ def dense_case(rnd, with_q=True):
   return ev
 
 
+def scaleshift_case(rnd, with_q=True):
+  """QScaleShift: y = x * q(weight) + q(bias), one scalar weight and bias for the whole tensor."""
+  from qkeras import QScaleShift
+  log = []
+  usebias = rnd.random() < 0.6
+  hasact = with_q and rnd.random() < 0.5
+  kw = {}
+  if with_q:
+    kw["weight_quantizer"] = Proxy(KQ(), "kernel", log)
+    if usebias:
+      kw["bias_quantizer"] = Proxy(BQ(), "bias", log)
+    if hasact:
+      kw["activation"] = Proxy(AQ(), "activation", log)
+  lay = QScaleShift(use_bias=usebias, **kw)
+  n = rnd.choice([1, 4, 6])
+  lay.build((None, n))
+  ws = [np.random.RandomState(rnd.randint(0, 10 ** 6)).uniform(-1.2, 1.2, v.shape).astype(np.float32) for v in lay.get_weights()]
+  lay.set_weights(ws)
+  x = np.array([[rnd.randint(-6, 6) for _ in range(n)]], dtype=np.float32) * 2.0 ** SX
+  del log[:]
+  y = lay(tf.constant(x)).numpy()
+  rec = {r: (a, b) for r, a, b in log}
+  ev = {"kind": "layer" if with_q else "plain", "cls": "QScaleShift", "g": {"sh": 1, "sw": 1, "dh": 1, "dw": 1, "pad": "valid"},
+        "usebias": int(usebias), "hasact": int(hasact), "ph": 1, "pw": 1, "qm": 1, "applied": [r for r, _, _ in log], "dm": 1}
+  w = np.asarray(rec["kernel"][1]) if with_q else ws[0]
+  b = (np.asarray(rec["bias"][1]) if with_q else ws[1]) if usebias else np.zeros((1, 1), np.float32)
+  ys = x * w + b if usebias else x * w
+  if hasact:
+    ys = np.asarray(AQ()(tf.constant(ys.astype(np.float32))))
+  ev["stock"] = int(np.array_equal(np.asarray(ys, dtype=np.float32), y))
+  if not with_q:
+    return ev
+  ev["reported"] = [["kernel", "bias"][j] for j, q in enumerate(lay.get_quantizers()) if q is not None]
+  ev["x"] = ints(x[0], SX)
+  ev["qk"] = ints(w, -3)
+  ev["qk2"] = [[[[0]]]]
+  ev["qb"] = ints(b.reshape(-1), -5) if usebias else [0]
+  ev["pre"] = ints(rec["activation"][0][0] if hasact else y[0], -5)
+  return ev
+
+
 def pool_case(rnd, cls):
   log = []
   h, w, c = rnd.choice([4, 6]), rnd.choice([4, 6]), rnd.choice([1, 2])
@@ -311,6 +352,7 @@ def main():
   plan += [("dense", "QDense", True)] * n + [("dense", "QDense", False)] * max(2, n // 6)
   plan += [("pool", "QAveragePooling2D", True)] * n + [("pool", "QGlobalAveragePooling2D", True)] * max(3, n // 3)
   plan += [("rnn", c, True) for c in ("QSimpleRNN", "QLSTM", "QGRU")] * max(4, n // 3)
+  plan += [("scaleshift", "QScaleShift", True)] * max(3, n // 3) + [("scaleshift", "QScaleShift", False)]
   for kind, cls, wq in plan:
     try:
       if kind == "conv":
@@ -319,6 +361,8 @@ def main():
         ev = dense_case(rnd, wq)
       elif kind == "pool":
         ev = pool_case(rnd, cls)
+      elif kind == "scaleshift":
+        ev = scaleshift_case(rnd, wq)
       else:
         ev = rnn_case(rnd, cls)
       for k, v in (("x", [0]), ("qk", [0]), ("qk2", [0]), ("qb", [0]), ("pre", [0]), ("reported", []), ("applied", []),
